@@ -6,7 +6,7 @@
     every reachable state (C08_wf_reachable). *)
 From Coq Require Import List ZArith NArith Bool.
 From Kardia Require Import C08.Model C08.ProofsEqv C08.ProofsInv C08.ProofsUndo C08.ProofsRevert C08.Proofs C08.ProofsCoh.
-From Kardia Require Import C08.ModelSnap C08.ModelSnapHeap C08.ProofsSnap C08.ProofsSnapDB C08.ProofsSnapBridge.
+From Kardia Require Import C08.ModelSnap C08.ModelSnapHeap C08.ProofsSnap C08.ProofsSnapDB C08.ProofsSnapBridge C08.SourceTie.
 Import ListNotations.
 Local Open Scope N_scope.
 
@@ -267,3 +267,19 @@ Theorem C08_sync_block_ops_partial : forall base ss o p, Sync base ss -> ss_snap
   Sync base (fst (sstep ss o)) /\ ss_snap (fst (sstep ss o)) = Some p.
 Proof. exact sync_sstep_block_ops. Qed.
 Print Assumptions C08_sync_block_ops_partial.
+
+(** ------------------------------------------------------------------------------------------------
+    SOURCE TIE: the decisions of Model.v / ModelSnap.v are the expressions go2coq regenerates from the
+    Go sources on every check (Generated/C08Source.v): stateObject.empty, the zero-amount exits of
+    AddBalance/SubBalance, SetState's no-op test, the dirty/pending/cached/destructed chain of
+    GetState/GetCommittedState, updateTrie's skip test, touch's RIPEMD case, getStateObject,
+    createObject/CreateAccount, Suicide, Empty, AddRefund/SubRefund (uint64 arithmetic and the panic
+    test), Snapshot, RevertToSnapshot's search predicate and validity test, Finalise's deletion test,
+    clearJournalAndRefund, IntermediateRoot/Commit's deleted tests, journal.append/dirty/revert (counter
+    arithmetic, loop bounds = length - journalIndex), resetObjectChange/suicideChange/addLogChange
+    reverts, diffLayer.AccountRLP/Storage (both bloom probes), accountRLP/storage walks, flatten,
+    Tree.Cap/cap (layers == 0, the dive loop = layers - 1 parents, the genAbort test), diffToDisk's
+    write-or-delete test; with the atoms (what is compared) pinned. *)
+Theorem C08_source_tie : C08_source_tie_statement.
+Proof. exact C08_source_tie_proof. Qed.
+Print Assumptions C08_source_tie.
